@@ -64,6 +64,9 @@ def main():
         for name, res in ex.map(lambda n: run_one(n, pids), names):
             results[name] = res
             own = name.split('-')[0]
+            if own == 'R':
+                pf = os.path.join(SEEDED, name, 'property.txt')
+                own = open(pf).read().strip() if os.path.exists(pf) else 'R'
             print(name, 'DETECTED' if res.get('fired') else ('ANALYSIS-ERROR' if res.get('analysis_errors') else ('ERR ' + res.get('error', '')[:80] if 'error' in res else 'missed')),
                   sorted(res.get('fired', {})), flush=True)
             # meta.json
@@ -75,7 +78,8 @@ def main():
                 'property': own,
                 'files_changed': files,
                 'needs_to_manifest': (re.search(r'(?is)(needs?|what it needs|manifest)[^\n]*\n(.{0,600})', notes) or [None, None, ''])[2].strip()[:600] or notes[:400],
-                'author': 'independent sub-agent given only the property text and a scratch worktree',
+                'author': ('reverse of a fix: commit of /repo (regression control, not an independent seed)' if name.startswith('R-') else
+                           'independent sub-agent given only the property text and a scratch worktree'),
                 'confirmed_by_me': {
                     'how': 'tools/confirm_seed.sh: fresh worktree of /repo HEAD; demo.py on clean tree (exit 0 expected), patch applied, demo.py again (non-zero expected), '
                            'full baseline pytest command with -n 6 (>= 2478 passed expected); worktree removed',
@@ -95,8 +99,12 @@ def main():
     prev.update(results)
     with open(mp, 'w') as f:
         json.dump(prev, f, indent=1, sort_keys=True)
-    det = sum(1 for r in prev.values() if r.get('fired'))
-    print(f'{det}/{len(prev)} seeded mutations detected by some check')
+    ind = {k: r for k, r in prev.items() if not k.startswith('R-')}
+    reg = {k: r for k, r in prev.items() if k.startswith('R-')}
+    det = sum(1 for r in ind.values() if r.get('fired'))
+    print(f'{det}/{len(ind)} independent seeded mutations detected by some check')
+    if reg:
+        print(f'{sum(1 for r in reg.values() if r.get("fired") or r.get("analysis_errors"))}/{len(reg)} reversed fixes reported again (violation or analysis abort)')
 
 
 if __name__ == '__main__':
